@@ -446,7 +446,17 @@ JnpMatmulPlugin._PRIM.def_abstract_eval(JnpMatmulPlugin.abstract_eval)
 def _matmul_batch_rule(
     args: tuple[Any, ...], dims: tuple[Any, ...], **params: Any
 ) -> Any:
-    return broadcast_batcher_compat(JnpMatmulPlugin._PRIM, args, dims, **params)
+    # A leading batch axis is transparent for jnp.matmul only when every operand
+    # is a matrix (or a stack of matrices) per example and is batched in front.
+    if all(
+        (d is None or d == 0) and np.ndim(x) - (0 if d is None else 1) >= 2
+        for x, d in zip(args, dims)
+    ):
+        return broadcast_batcher_compat(JnpMatmulPlugin._PRIM, args, dims, **params)
+    out = jax.vmap(lambda a, b: _matmul_impl(a, b, **params), in_axes=tuple(dims))(
+        *args
+    )
+    return out, 0
 
 
 batching.primitive_batchers[JnpMatmulPlugin._PRIM] = _matmul_batch_rule
